@@ -146,7 +146,7 @@ struct PerType {
         const char* vn = B <= 16 ? "every value" : (B == 32 ? "L32" : "L64");
         // bitwise
         if (B == 8) { DomainOf<S, DomFull2<S> > d = erase<S>(DomFull2<S>()); bitwise(d, K); }
-        else if (B == 16 && opt().thorough) { DomainOf<S, DomFull2<S> > d = erase<S>(DomFull2<S>()); bitwise(d, K); }
+        else if (B == 16 && exh16()) { DomainOf<S, DomFull2<S> > d = erase<S>(DomFull2<S>()); bitwise(d, K); }
         else if (B == 16) { DomainOf<S, DomCross2<S> > d = erase<S>(DomCross2<S>(as_scalars<S>(alphabet_L(16, false)), "D16 x L16 union L16 x D16")); bitwise(d, K); }
         else { DomainOf<S, DomProd2<S> > d = erase<S>(DomProd2<S>(vals, vals, std::string(vn) + " x " + vn)); bitwise(d, K); }
         explore<V, bit_not>(erase<S>(DomList1<S>(vals, vn)), &K);
